@@ -12,10 +12,12 @@ The converters are stubbed in the harness only (a fake `subprocess` module objec
 lena.output.latex_to_pdf / pdf_to_png for the duration of a run; /repo is never touched).
 """
 import copy
+import inspect
 import itertools
 import os
 import shutil
 import tempfile
+import types
 import warnings
 
 from harness.common import exc_name
@@ -73,6 +75,14 @@ THEOREMS = [
     "Lena.C10.interleave_law_tail",
     # 4d. locality: reference semantics = value-passing semantics
     "Lena.C10.shared_eq_loop_of_local",
+    # 4e. (adversary round) the selection by output.filetype is exact — a dictionary / list containing the word, another
+    # spelling, the word elsewhere in the context do not select; reference semantics: an unselected value changes no
+    # context object
+    "Lena.C10.filetype_sel_iff",
+    "Lena.C10.png_passes_unless_filetype_is_pdf",
+    "Lena.C10.render_passes_unless_filetype_is_csv",
+    "Lena.C10.pdf_passes_unless_filetype_is_tex",
+    "Lena.C10.shared_unselected_untouched",
 ]
 # instances, unfoldings, glue and free theorems: audited, not counted as proof obligations of the property
 AUX_THEOREMS = [
@@ -96,7 +106,7 @@ AUX_THEOREMS = [
     "Lena.C10.pdfRun_eq_from", "Lena.C10.pdf_from_pool_after",
     "Lena.C10.toCSV_ctxLocal", "Lena.C10.write_ctxLocal", "Lena.C10.render_ctxLocal", "Lena.C10.png_ctxLocal",
     "Lena.C10.histToGraph_ctxLocal", "Lena.C10.iterateBins_ctxLocal", "Lena.C10.mapBins_ctxLocal",
-    "Lena.C10.runIf_ctxLocal", "Lena.C10.write_shared_interleave",
+    "Lena.C10.runIf_ctxLocal", "Lena.C10.write_shared_interleave", "Lena.C10.Heap.get_set",
 ]
 TRUSTED = [
     "Lean 4.33.0 kernel; axioms limited to propext, Classical.choice, Quot.sound (audited by #print axioms on every run)",
@@ -148,6 +158,17 @@ ASSUMPTIONS = [
     "not create them in that branch); an existing path that is a directory is outside the model",
     "modification times: a logical clock in the model, os.utime'd values below the wall clock in the harness (new "
     "files get `now`)",
+    "mutation of DATA objects is not in the model (flow values are immutable there; only context dictionaries have "
+    "reference semantics, sharedStep / shared_unselected_untouched): that an unselected value's data — a one-shot "
+    "iterable, the bins of a histogram, lists / dictionaries inside the data, the attributes of a foreign object — "
+    "is left as it was is judged by the oracle alone (content before / after the run, what is left in an iterator)",
+    "constructors (`__init__`) and anything outside the output directory are not in the model: that constructing and "
+    "running an element which selects nothing leaves the output directory, the temporary directory, the current "
+    "directory, HOME and the template directory as they were is judged by the oracle's snapshots (other places of "
+    "the machine are not watched)",
+    "adversary candidates judged (notes/adversary_C10.md): 1 (MapGroup reads unselected generators), 2 (PDFToPNG "
+    "selects by `contains`), 3 (HistToGraph touches the bins before the to_graph test), 4 (LaTeXToPDF yields failed "
+    "conversions), 5 (RenderLaTeX creates a byte-code cache directory) are all inside the statement and quantifier",
     "`Exc.unmodelled`: the model declines; a generated case that reaches it is reported as a disagreement, so the "
     "theorems speak about lena only for the cases the correspondence accepts",
 ]
@@ -159,10 +180,19 @@ RULE = ("per element configuration (the 10 elements of the statement plus GroupP
         "it does not select: numbers, strings, None, floats, tuples, lists, bytes, bare dicts, foreign objects, pairs "
         "with unrelated context, pairs with disabling context such as output.write/to_csv False, histograms of the "
         "wrong kind, and unselected values whose context carries the settings the element reads for selected ones: "
-        "output.duplicate_last_bin/to_csv/write/filename/dirname/fileext/filetype/template/changed) are drawn from "
-        "fixed palettes with ctx.rng; flows without any selected value (the empty flow included) over not yet "
+        "output.duplicate_last_bin/to_csv/write/filename/dirname/fileext/filetype/template/changed; since the "
+        "adversary round also: one-shot iterables — a generator, a list iterator, an iterator object, bare and in "
+        "pairs with enabling contexts — which must still hold all their items afterwards; values with (data, "
+        "context) pairs / dictionaries / lists inside their data, histograms of (data, context) bins; per element "
+        "contexts CLOSE to its selection rule: the entry the rule reads holds a dictionary or list containing the "
+        "word, another spelling, a number, every falsy / truthy value of another type, or the word / the switch "
+        "stands at another place of the context — on data the element would act on; and the element's own selected "
+        "palette values, the error-raising ones included, switched off through the context) are drawn from "
+        "fixed palettes with ctx.rng; while an element is constructed and run, the temporary directory (TMPDIR, "
+        "tempfile.tempdir), the current directory and HOME are fresh directories of the case and are watched like "
+        "the output directory, as is the directory of the templates; flows without any selected value (the empty flow included) over not yet "
         "existing output directories are part of every size sweep; (1) every palette value once with a value of the "
-        "other kind, both orders; (2) for drawn (A, B) with |A|,|B| <= 3 (1 draw per size pair in quick, 10 in "
+        "other kind, both orders (the values added in the adversary round: one of the two orders in quick); (2) for drawn (A, B) with |A|,|B| <= 3 (1 draw per size pair in quick, 10 in "
         "thorough) ALL interleaving patterns are enumerated (exhaustive up to 3+3); (3) thorough adds random "
         "patterns with |A|,|B| <= 6.  Quick keeps a cross of the 54 RunIf selector x inner-sequence settings. "
         "Besides: the same element object used for a second flow (also after a flow of unselected values only), and "
@@ -206,6 +236,28 @@ class LookAlike(object):
     def __init__(self, id):
         self.id = id
         self.bins, self.edges, self.dim, self.nbins, self.ranges = [1, 2], [0, 1, 2], 1, [2], [(0, 2)]
+
+
+class OneShot(object):
+    """an iterator object (`__iter__` returns itself): iterating over it uses it up; `pos` shows how far it was read"""
+    def __init__(self, id):
+        self.id, self.pos = id, 0
+
+    def __iter__(self):
+        return self
+
+    def __next__(self):
+        if self.pos >= 2:
+            raise StopIteration
+        self.pos += 1
+        return (self.id, 2)[self.pos - 1]
+
+
+ITER_KINDS = ("gen", "iter", "oneshot")          # one-shot iterables: `_iter_items` is what they hold
+
+
+def _iter_items(d):
+    return [d["id"], 2]
 
 
 class Rows(object):
@@ -305,6 +357,10 @@ def build_data(d, root):
         return {d["id"], -1}
     if k == "gen":
         return (x for x in (d["id"], 2))
+    if k == "iter":
+        return iter([d["id"], 2])
+    if k == "oneshot":
+        return OneShot(d["id"])
     if k == "hist":
         shape = d["shape"]
         cells = iter([_cell(d["bin"], d["id"], i) for i in range(_prod(shape))])
@@ -366,6 +422,10 @@ def model_data(d):
         return {"k": "other", "cls": "set", "id": 0, "iter": True}
     if k == "gen":
         return {"k": "other", "cls": "generator", "id": 0, "iter": True}
+    if k == "iter":
+        return {"k": "other", "cls": "list_iterator", "id": 0, "iter": True}
+    if k == "oneshot":
+        return {"k": "other", "cls": "OneShot", "id": 0, "iter": True}
     if k == "seq":
         return {"k": "seq", "tuple": d["tuple"], "items": [model_data(x) for x in d["items"]]}
     if k == "writable":
@@ -446,7 +506,7 @@ def eval_sel(sel, spec):
 
 
 def _has_iter(d):
-    return d["k"] in ("str", "seq", "bytes", "baredict", "gplots", "set", "gen")
+    return d["k"] in ("str", "seq", "bytes", "baredict", "gplots", "set", "gen", "iter", "oneshot")
 
 
 def ref_selected(el, spec):
@@ -842,6 +902,27 @@ def prepare_fs(fs, root):
         os.utime(p, (mtime, mtime))
 
 
+# "Without touching the file system" is not only about the output directory: while an element is constructed and run,
+# the temporary directory (TMPDIR / tempfile.tempdir), the current directory and HOME are fresh directories of the
+# case, and the directory of the templates is watched too; `snapshot` lists them under "outside".
+_SIDE = {"dirs": None}
+
+
+def _listing(top, skip=()):
+    out = []
+    for dp, dns, fns in os.walk(top):
+        dns[:] = [d for d in dns if os.path.join(dp, d) not in skip]
+        for n in dns:
+            out.append(os.path.relpath(os.path.join(dp, n), top) + "/")
+        for n in fns:
+            p = os.path.join(dp, n)
+            try:
+                out.append("%s [%d bytes]" % (os.path.relpath(p, top), os.stat(p).st_size))
+            except OSError:
+                out.append(os.path.relpath(p, top))
+    return sorted(out)
+
+
 def snapshot(root):
     files, dirs = {}, []
     for dp, dns, fns in os.walk(root):
@@ -851,7 +932,42 @@ def snapshot(root):
             p = os.path.join(dp, fn)
             with open(p) as f:
                 files[_canon_str(p, root)] = _canon_str(f.read(), root)
-    return {"files": files, "dirs": sorted(dirs)}
+    snap = {"files": files, "dirs": sorted(dirs)}
+    if _SIDE["dirs"]:
+        snap["outside"] = {name: _listing(top, skip) for name, top, skip in _SIDE["dirs"]}
+    return snap
+
+
+class _Sandbox(object):
+    """fresh temporary / current / home directories for one case (restored on exit)"""
+    def __init__(self, tdir):
+        self.tdir = tdir
+
+    def __enter__(self):
+        self.side = tempfile.mkdtemp(prefix="c10s_", dir="/dev/shm" if os.path.isdir("/dev/shm") else None)
+        self.old = (os.getcwd(), tempfile.tempdir, {k: os.environ.get(k) for k in ("TMPDIR", "HOME")})
+        for sub in ("tmp", "cwd", "home"):
+            os.mkdir(os.path.join(self.side, sub))
+        os.environ["TMPDIR"] = os.path.join(self.side, "tmp")
+        os.environ["HOME"] = os.path.join(self.side, "home")
+        tempfile.tempdir = os.path.join(self.side, "tmp")
+        os.chdir(os.path.join(self.side, "cwd"))
+        # (the converter stub of the "real" PDFToPNG cases lives in <tdir>/bin: put there by the harness)
+        _SIDE["dirs"] = [("side", self.side, ()), ("templates", self.tdir, (os.path.join(self.tdir, "bin"),))]
+        return self
+
+    def __exit__(self, *exc):
+        _SIDE["dirs"] = None
+        cwd, tmpd, env = self.old
+        os.chdir(cwd)
+        tempfile.tempdir = tmpd
+        for k, v in env.items():
+            if v is None:
+                os.environ.pop(k, None)
+            else:
+                os.environ[k] = v
+        shutil.rmtree(self.side, ignore_errors=True)
+        return False
 
 
 def model_fs(fs):
@@ -1020,6 +1136,20 @@ def enc_deep(o, root, depth=0):
         return {"histogram": [enc_deep(o.edges, root, depth + 1), enc_deep(o.bins, root, depth + 1)]}
     if isinstance(o, lena.structures.graph):
         return {"graph": repr(o)}
+    if isinstance(o, types.GeneratorType):
+        # how far a one-shot iterable was read is part of its content (looked at without reading from it)
+        return {"obj": "generator", "state": inspect.getgeneratorstate(o)}
+    if isinstance(o, OneShot):
+        return {"obj": "OneShot", "id": o.id, "pos": o.pos}
+    if type(o).__name__ == "list_iterator":
+        return {"obj": "list_iterator", "left": o.__length_hint__()}
+    if isinstance(o, (set, frozenset)):
+        return {"set": sorted(repr(x) for x in o)}
+    if isinstance(o, (bytes, bytearray)):
+        return {"bytes": repr(bytes(o))}
+    if hasattr(o, "__dict__") and type(o).__module__ == __name__:
+        # the harness's own foreign classes: all their attributes (a LookAlike holds lists)
+        return {"obj": type(o).__name__, "attrs": enc_deep(dict(vars(o)), root, depth + 1)}
     if hasattr(o, "id"):
         return {"obj": type(o).__name__, "id": o.id}
     return {"obj": type(o).__name__}
@@ -1128,14 +1258,23 @@ def _run_flow(el, element, clock, root, specs, idxs, is_b, alias, earlier):
             positions.setdefault(i, []).append(pos)
     after = [enc_deep(v, root) for v in flow]
     b_report = []
+    drained = {}
     for i, v in enumerate(flow):
         if not is_b[i]:
             continue
         rep = {"idx": idxs[i], "pulled": i < pulled, "pos": positions.get(ids[id(v)], []),
                "intact": before[i] == after[i]}
+        if specs[i]["d"]["k"] in ITER_KINDS and not alias:
+            # a one-shot iterable must still hold all its items after it has passed (read now, once per object)
+            data = v[0] if has_ctx(v) else v
+            if id(data) not in drained:
+                drained[id(data)] = list(data)
+            if drained[id(data)] != _iter_items(specs[i]["d"]):
+                rep["intact"] = False
+                rep["left"] = repr(drained[id(data)])
         if fs_check and i + 1 < len(snaps):
             stub = set(_canon_str(p, root) for p in clock.stub_writes)
-            strip = lambda sn: {"dirs": sn["dirs"], "files": {p: c for p, c in sn["files"].items() if p not in stub}}
+            strip = lambda sn: dict(sn, files={p: c for p, c in sn["files"].items() if p not in stub})
             rep["fs_untouched"] = strip(snaps[i]) == strip(snaps[i + 1])
         b_report.append(rep)
     # everything that is not a passed B value, in full detail
@@ -1166,22 +1305,23 @@ def _run_once(case, runs):
     cleanup = lambda: None
     try:
         prepare_fs(case.get("fs", {}), root)
-        fs0 = snapshot(root)          # the directory before the element is even constructed
         tnames = set(el.get("templates", []))
         for st in el.get("stages", []):
             tnames.update(st.get("templates", []))
         for name in sorted(tnames):
             with open(os.path.join(tdir, name), "w") as f:
                 f.write(TEMPLATES[name])
-        with warnings.catch_warnings():
-            warnings.simplefilter("ignore")
-            element, cleanup = make_element(el, root, tdir, clock)
-        results = []
-        earlier = {"ctx": {}, "alive": []}
-        for specs, idxs, is_b, alias in runs:
-            results.append(_run_flow(el, element, clock, root, specs, idxs, is_b, alias, earlier))
-        results[0]["fs0"] = fs0
-        return results
+        with _Sandbox(tdir):
+            fs0 = snapshot(root)          # the directories before the element is even constructed
+            with warnings.catch_warnings():
+                warnings.simplefilter("ignore")
+                element, cleanup = make_element(el, root, tdir, clock)
+            results = []
+            earlier = {"ctx": {}, "alive": []}
+            for specs, idxs, is_b, alias in runs:
+                results.append(_run_flow(el, element, clock, root, specs, idxs, is_b, alias, earlier))
+            results[0]["fs0"] = fs0
+            return results
     finally:
         cleanup()
         shutil.rmtree(root, ignore_errors=True)
@@ -1286,7 +1426,7 @@ def _cmp_run(name, impl, mod, is_pdf, pipe=False, full=False):
     if it != mt:
         return f"{name}: tail impl {it} vs model {mt}"
     mfs = canon_model_fs(mod["fs"])
-    ifs = impl["fs"]
+    ifs = {"files": impl["fs"]["files"], "dirs": impl["fs"]["dirs"]}       # ("outside": the oracle's business)
     if pipe:
         # a produced text written to a file: the model does not know its characters
         ifs = {"dirs": ifs["dirs"], "files": {p: ("TEXT" if mfs["files"].get(p, "").startswith("TEXT:") else c)
@@ -1456,6 +1596,9 @@ def _oracle(case, res, offset=0, loose=False):
             return f"{what}: the unselected values change their relative order (value {v} at output {rep['pos'][0]})"
         last = rep["pos"][0]
         if not rep["intact"]:
+            if "left" in rep:
+                return (f"{what}: the unselected value {v} (a one-shot iterable) was read from while passing: "
+                        f"{rep['left']} is left of {_iter_items(v['d'])}")
             return f"{what}: the unselected value {v} was modified while passing"
         if rep.get("fs_untouched") is False:
             return f"{what}: the file system changed while the unselected value {v} was processed"
@@ -1668,6 +1811,149 @@ def exotic_vals(ids):
         {"d": {"k": "str", "v": ""}},
         {"d": {"k": "bool"}, "c": {"foo": n()}},
     ]
+
+
+
+def oneshot_vals(ids):
+    """one-shot iterables (a generator, a list iterator, an iterator object), bare and in pairs whose context enables
+    the elements: passing through an element must not read from them"""
+    n = ids.next
+    out = []
+    for k in ITER_KINDS:
+        out.append({"d": {"k": k, "id": n()}})
+        out.append({"d": {"k": k, "id": n()}, "c": {"foo": n()}})
+    out += [
+        {"d": {"k": "gen", "id": n()}, "c": {"output": {"to_csv": True, "write": True}, "histogram": {"to_graph": True}}},
+        {"d": {"k": "iter", "id": n()}, "c": {"output": {"filetype": "txt", "changed": True}, "variable": {"name": "x"}}},
+        {"d": {"k": "oneshot", "id": n()}, "c": {"output": {"write": True, "filename": "it"}, "groups": [1, 2]}},
+        {"d": {"k": "gen", "id": n()}, "c": {"output": {"group": [{}, {}]}, "bins": 2}},
+    ]
+    return out
+
+
+def container_vals(ids):
+    """unselected values that hold (data, context) pairs or dictionaries inside their data: nothing inside may change"""
+    n = ids.next
+    i = lambda: {"k": "int", "v": 7000 + n()}
+    pair = lambda: {"k": "seq", "tuple": True, "items": [i(), {"k": "baredict", "v": {"a": 1, "n": n()}}]}
+    return [
+        {"d": {"k": "seq", "tuple": False, "items": [pair(), pair()]}},
+        {"d": {"k": "seq", "tuple": False, "items": [pair(), pair()]}, "c": {"groups": [{}, {}], "n": n()}},
+        {"d": {"k": "seq", "tuple": True, "items": [pair(), pair(), pair()]}},
+        {"d": _hist(ids, 3, "pair")},
+        {"d": _hist(ids, 3, "pair"), "c": {"output": {"to_csv": False, "write": False}, "histogram": {"to_graph": False}}},
+        {"d": _hist(ids, 3, "hist"), "c": {"histogram": {"to_graph": 0}, "output": {"to_csv": 0}, "n": n()}},
+        {"d": {"k": "lookalike", "id": n()}, "c": {"output": {"to_csv": True}, "histogram": {"to_graph": True, "dim": 1}}},
+    ]
+
+
+# the dotted keys the selection rules of the elements read, with the words they compare with
+_RULE_PATHS = {"tocsv": [("output.to_csv", None)], "write": [("output.write", None)],
+               "render": [("output.filetype", "csv")], "pdf": [("output.filetype", "tex")],
+               "png": [("output.filetype", "pdf")], "h2g": [("histogram.to_graph", None)], "mapgroup": [("group", None)]}
+
+
+def _rule_paths(el):
+    if el["k"] == "pipe":
+        out = []
+        for st in el["stages"]:
+            out += [p for p in _rule_paths(st) if p not in out]
+        return out
+    if el["k"] == "render" and el.get("sel") is not None:
+        return []
+    return _RULE_PATHS.get(el["k"], [])
+
+
+def _nest_ctx(path, v):
+    keys = path.split(".")
+    for k in reversed(keys):
+        v = {k: v}
+    return v
+
+
+def nearmiss_vals(ids, el, rng):
+    """"unrelated context" close to the selection rule of the element: the entry the rule reads holds a value of
+    another type (a dictionary or a list that contains the word, another spelling, a number …), or the word / the
+    switch stands at another place of the context.  Data: what the element would act on (existing files, a
+    histogram, a string), so that a wrong selection shows."""
+    n = ids.next
+    datas = {"csv": [{"k": "str", "v": "$R/x.csv"}], "tex": [{"k": "str", "v": "$R/t1.tex"}, {"k": "str", "v": "$R/t2.tex"}],
+             "pdf": [{"k": "str", "v": "$R/p1.pdf"}, {"k": "str", "v": "$R/p2.pdf"}]}
+    out = []
+    for path, word in _rule_paths(el):
+        last = path.split(".")[-1]
+        if word is not None:
+            odd = [{word: True, "png": True}, {word: {"pages": 3}}, {word: word}, [word], [word, "x"], (word.upper()),
+                   word + "x", " " + word, word[:-1], "", 0, 1, True, False, None, {last: word}, {}]
+            ctxs = [_nest_ctx(path, o) for o in odd]
+            ctxs += [{last: word}, {path: word}, {"output": {word: True}}, {word: True}, {"output": [{last: word}]},
+                     {"outputs": {last: word}}, {"output": {"output": {last: word}}}, {"output": {last.upper(): word}},
+                     {"output": {"filetypes": word, "fileext": word}}, {"context": _nest_ctx(path, word)}]
+            for c in ctxs:
+                d = copy.deepcopy(rng.choice(datas[word] + [{"k": "int", "v": 6000 + n()}]))
+                c = copy.deepcopy(c)
+                if rng.random() < 0.3:
+                    c["n"] = n()
+                out.append({"d": d, "c": c})
+        else:
+            # switches (to_csv / write / to_graph) and `group`: all falsy and truthy values of other types, and the
+            # switch at other places; data of every kind the element acts on
+            odd = [False, 0, None, "", [], {}, True, 1, "False", [0], {last: False}, [False]]
+            ctxs = [_nest_ctx(path, o) for o in odd]
+            ctxs += [{last: False}, {path: False}, {"output": {"output": {last: False}}}, {last.upper(): False},
+                     {"context": _nest_ctx(path, False)}, {path.split(".")[0]: [{last: False}]}]
+            kinds = [lambda: _hist(ids, 1, "num"), lambda: _hist(ids, 2, "num"), lambda: _hist(ids, 1, "pair"),
+                     lambda: {"k": "str", "v": "text %d" % n()}, lambda: {"k": "rows", "id": n(), "rk": "ok", "upd": True},
+                     lambda: {"k": "writable", "id": n()}, lambda: {"k": "int", "v": 6000 + n()},
+                     lambda: {"k": "seq", "tuple": False, "items": [{"k": "int", "v": 1}, {"k": "int", "v": 2}]}]
+            for c in ctxs:
+                for mk in rng.sample(kinds, 3):
+                    out.append({"d": mk(), "c": copy.deepcopy(c)})
+    return out
+
+
+def _set_path(c, path, v):
+    """a copy of the context `c` with `v` at the dotted `path` (None if an entry on the way is not a dictionary)"""
+    c = copy.deepcopy(c) if c is not None else {}
+    d = c
+    keys = path.split(".")
+    for k in keys[:-1]:
+        if k not in d:
+            d[k] = {}
+        if not isinstance(d[k], dict):
+            return None
+        d = d[k]
+    d[keys[-1]] = v
+    return c
+
+
+def twin_vals(ids, el, pal_a, rng):
+    """the selected values of the element's own palette (the error-raising ones too), switched off: same data, same
+    context, but the entry the selection rule reads disables / does not name them"""
+    out = []
+    for path, word in _rule_paths(el):
+        if path == "group":
+            offs = ["<del>"]
+        elif word is not None:
+            offs = ["other", {word: True}, [word], None]
+        elif path == "output.write":
+            offs = [False]
+        else:
+            offs = [False, 0, None, "", {}]
+        for v in pal_a:
+            if v["d"]["k"] == "gplots":
+                continue
+            for off in rng.sample(offs, min(2, len(offs))):
+                if off == "<del>":
+                    c = {("groups" if k == "group" else k): x for k, x in copy.deepcopy(v.get("c") or {}).items()}
+                else:
+                    c = _set_path(v.get("c"), path, off)
+                if c is None:
+                    continue
+                w = {"d": copy.deepcopy(v["d"]), "c": c}
+                _refresh_data(w["d"], ids)
+                out.append(w)
+    return out
 
 
 def _configs(tier):
@@ -2077,14 +2363,20 @@ def _configs(tier):
 
     # ---- every B palette also holds unselected values whose context carries the settings the element reads
     #      for the values it does select (they must not leak into what is made for the selected ones)
-    def with_settings(el, mk_b):
+    #      … and (adversary round) one-shot iterables, values with pairs / dictionaries inside their data, contexts
+    #      close to the element's selection rule, and the element's own selected values switched off
+    def with_settings(el, mk_a, mk_b):
         def b(ids, rng):
             extra = settings_vals(ids)
             if el["k"] != "groupplots":        # (its deepcopy / group_by callables are not made for these)
                 extra = extra + exotic_vals(ids)
+                wide = oneshot_vals(ids) + container_vals(ids) + nearmiss_vals(ids, el, rng)
+                wide = wide + twin_vals(ids, el, mk_a(_Ids(), rng), rng)
+                # (`_x`: in the quick tier step 1 of gen_cases puts these before OR after a selected value, not both)
+                extra = extra + [dict(v, _x=1) for v in wide]
             return mk_b(ids, rng) + [v for v in extra if not ref_selected(el, v)]
         return b
-    return [(el, fs, mk_a, with_settings(el, mk_b)) for el, fs, mk_a, mk_b in out]
+    return [(el, fs, mk_a, with_settings(el, mk_a, mk_b)) for el, fs, mk_a, mk_b in out]
 
 
 def _draw(rng, palette, n):
@@ -2097,6 +2389,7 @@ def _draw(rng, palette, n):
     for _ in range(n):
         v = copy.deepcopy(rng.choice(bad if bad and (not ok or rng.random() < 0.12) else ok))
         v.pop("_e", None)
+        v.pop("_x", None)
         out.append(v)
     return out
 
@@ -2233,13 +2526,15 @@ def gen_cases(ctx):
         if not real:
             for which, pal, other in ((True, pal_a, pal_b), (False, pal_b, pal_a)):
                 for v in pal:
-                    v = {k: x for k, x in copy.deepcopy(v).items() if k != "_e"}
+                    one_order = quick and v.get("_x")
+                    v = {k: x for k, x in copy.deepcopy(v).items() if k not in ("_e", "_x")}
                     o = _draw(rng, other, 1)
                     A, B = ([v], o) if which else (o, [v])
                     A, B = _prepare(el, A, B, ids)
                     if len(A) + len(B) < 2 and (pal_a and pal_b):
                         continue
-                    for pat in _patterns(len(A), len(B)):
+                    pats = list(_patterns(len(A), len(B)))
+                    for pat in ([rng.choice(pats)] if one_order else pats):
                         yield _mk_case(el, fs, A, B, pat, rng)
         # 2. all interleavings of drawn lists with |A|, |B| <= 3
         for (na, nb) in sizes:
@@ -2315,7 +2610,7 @@ def _refresh_data(d, ids):
         d["v"] = 10000 + ids.next()
     elif k == "float":
         d["v"] = "%d.5" % (10000 + ids.next())
-    elif k in ("obj", "bytes", "writable", "badwrite", "rows", "hist", "lookalike", "set", "gen"):
+    elif k in ("obj", "bytes", "writable", "badwrite", "rows", "hist", "lookalike", "set", "gen", "iter", "oneshot"):
         d["id"] = ids.next()
     elif k == "seq":
         for x in d["items"]:
@@ -2345,7 +2640,7 @@ LEVEL_NOTE = ("Trusted: Lean kernel (+ propext, Classical.choice, Quot.sound), t
               "stubs and schedules, the stand-ins for user callables, the JSON protocol.  'Without touching the file "
               "system' is a theorem with content for Write, PDFToPNG, RunIf, MapGroup and LaTeXToPDF; for ToCSV, "
               "RenderLaTeX, HistToGraph, IterateBins, MapBins it rests on the oracle's directory snapshots.  "
-              "THEOREMS lists the 40 theorems that carry the property; instances, unfoldings and free theorems are in "
+              "THEOREMS lists the 45 theorems that carry the property; instances, unfoldings and free theorems are in "
               "AUX_THEOREMS.")
 TECHNIQUE = "Lean 4 proof over hand-written model + correspondence check over all interleavings of small flows"
 DESIGN_REF = "DESIGN.md section 3, C10"
